@@ -94,7 +94,7 @@ PROPS = {
     "C09": {
         "theorems": [],
         "suites": [{"name": "reader", "quick": 1500, "thorough": 40000}, {"name": "respflow", "quick": 1200, "thorough": 40000}, {"name": "envelopes", "quick": 1, "thorough": 1}],
-        "required_tags": ["reader:cut", "reader:badflag", "reader:corrupt", "reader:garbage", "reader:lenlie", "respflow:success+cut", "env.decode:grpc-server"],
+        "required_tags": ["reader:cut", "reader:cut-after-prefix", "reader:cut-in-prefix", "reader:cut-last-byte", "reader:cut-at-boundary", "reader:badflag", "reader:corrupt", "reader:garbage", "reader:lenlie", "respflow:success+cut", "env.decode:grpc-server"],
         "trivial_tags": [],
         "level_text": "wip", "level_note": "wip",
     },
@@ -181,3 +181,9 @@ for _pid, _cfg in PROPS.items():
         for _t in _found:
             if _t not in _cfg["theorems"]:
                 _cfg["theorems"].append(_t)
+
+# level texts, notes, techniques and "modelled" notes live in tools/levels.py
+from levels import LEVELS as _LEVELS
+for _pid, _lv in _LEVELS.items():
+    if _pid in PROPS:
+        PROPS[_pid].update(_lv)
